@@ -974,15 +974,20 @@ regp_process(RegP *p, const RPMaybeFrame *mf)
          * block's memory after the header in order to store the return data
          * from the memory implementation. This removes the requirement of
          * allocating again, and eliminates some block memory waste. */
+        /* The answer is assembled in the frame's own block, behind the header
+         * that is stored there. */
+        const size_t hdrsize = (size_t)((unsigned char*)mf->frame->payload.data
+                                      - (unsigned char*)mf->frame->raw.memory);
+        const size_t room = p->alloc->blocksize - sizeof(RPFrame) - hdrsize;
         if (p->memory.type == RP_MEMTYPE_16) {
-            const size_t maxsize = (p->alloc->blocksize - sizeof(RPFrame)) / 2;
+            const size_t maxsize = room / 2;
             if (maxsize < blocksize) {
                 ba.status = RP_RESP_ETXOVERFLOW;
             } else {
                 ba = p->memory.access.m16.read(addr, blocksize, buf);
             }
         } else {
-            const size_t maxsize = p->alloc->blocksize - sizeof(RPFrame);
+            const size_t maxsize = room;
             if (maxsize < blocksize) {
                 ba.status = RP_RESP_ETXOVERFLOW;
             } else {
